@@ -195,3 +195,28 @@ def mat_len(len_expr):
                                            j if not isinstance(j, int) else z3.IntVal(j))))
     b.recipe = ('mat_len', len_expr)
     return b
+
+
+def sdict(kind='real'):
+    """dict: arbitrary string keys -> values of one sort (membership symbolic)"""
+    sort = {'real': R, 'int': I, 'bool': B, 'str': StrS}[kind]
+
+    def b(c, label):
+        from .models import SDict
+        has = z3.Function(f'{c.tag}{label}?has', StrS, B)
+        get = z3.Function(f'{c.tag}{label}', StrS, sort)
+        return SDict(has, get, label=label)
+    b.recipe = ('sdict', kind)
+    return b
+
+
+def mat(dim, lo=1):
+    """square real matrix dim x dim"""
+    def b(c, label):
+        from .vals import Mat
+        n = c.path.new_dim(dim, lo)
+        f = z3.Function(f'{c.tag}{label}', I, I, R)
+        return Mat(n, n, lambda i, j: SV(f(i if not isinstance(i, int) else z3.IntVal(i),
+                                           j if not isinstance(j, int) else z3.IntVal(j))))
+    b.recipe = ('mat', dim)
+    return b
